@@ -17,12 +17,11 @@ import (
 	"testing"
 	"time"
 
-	"github.com/Tnze/go-mc/bot"
 	"github.com/Tnze/go-mc/offline"
-	"github.com/Tnze/go-mc/server/auth"
 	"github.com/Tnze/go-mc/yggdrasil/user"
 	"pgregory.net/rapid"
 
+	"verif/harness/hooks"
 	"verif/harness/pbt"
 	"verif/harness/ref/java"
 )
@@ -115,10 +114,13 @@ func (c C18Digest) steer() (string, []byte) {
 }
 
 func c18CheckDigest(c C18Digest) *pbt.Violation {
+	if hooks.BotAuthDigest == nil {
+		return pbt.V("harness:hook-verif_digest-unavailable", "harness", "the session-hash functions cannot be reached on this tree (hook verif_digest does not build)")
+	}
 	id, d := c.steer()
 	want := java.BigIntHex(d)
 	var a, b string
-	if pv, stack := pbt.Try(func() { a = bot.VerifAuthDigest(id, c.Secret, c.Key); b = auth.VerifAuthDigest(id, c.Secret, c.Key) }); pv != nil {
+	if pv, stack := pbt.Try(func() { a = hooks.BotAuthDigest(id, c.Secret, c.Key); b = hooks.SrvAuthDigest(id, c.Secret, c.Key) }); pv != nil {
 		return pbt.V(pbt.PanicKey("c18.digest", stack), "no panic", "authDigest panicked: %v\n%s", pv, stack)
 	}
 	if a != want {
@@ -168,7 +170,10 @@ func TestC18DigestVectors(t *testing.T) {
 		if got := java.BigIntHex(d[:]); got != want {
 			t.Fatalf("reference BigIntHex(sha1(%q)) = %s, want %s", name, got, want)
 		}
-		if got := bot.VerifAuthDigest(name, nil, nil); got != want {
+		if hooks.BotAuthDigest == nil {
+			continue
+		}
+		if got := hooks.BotAuthDigest(name, nil, nil); got != want {
 			pbt.Fail(t, "C18Digest", C18Digest{ServerID: name, Class: "any"}, pbt.V("c18.digest.client", "wiki.vg vector", "authDigest(%q)=%s want %s", name, got, want))
 		}
 	}
@@ -213,8 +218,8 @@ var c18Twos = pbt.Register(pbt.Prop[C18Twos]{
 	},
 	Check: func(c C18Twos) *pbt.Violation {
 		want := java.Negate(c.Bytes)
-		a := bot.VerifTwosComplement(append([]byte{}, c.Bytes...))
-		b := auth.VerifTwosComplement(append([]byte{}, c.Bytes...))
+		a := hooks.BotTwos(append([]byte{}, c.Bytes...))
+		b := hooks.SrvTwos(append([]byte{}, c.Bytes...))
 		if !bytes.Equal(a, want) {
 			return pbt.V("c18.twos.client", "two's-complement negation with carry", "bot.twosComplement(%x)=%x, want %x", c.Bytes, a, want)
 		}
@@ -227,7 +232,14 @@ var c18Twos = pbt.Register(pbt.Prop[C18Twos]{
 	Quick:    64000, Thorough: 1000000,
 })
 
-func TestC18Twos(t *testing.T) { pbt.Run(t, c18Twos) }
+func TestC18Twos(t *testing.T) {
+	if hooks.BotTwos == nil {
+		// redundant with the digest checks (which compare with Java's rendering): skipped, and said so
+		pbt.Ev.Note("hook verif_twos does not build on this tree (twosComplement renamed or removed): the direct two's-complement check was skipped; the digest checks still decide the clause")
+		t.Skip("hook verif_twos unavailable")
+	}
+	pbt.Run(t, c18Twos)
+}
 
 // ---- forged signatures ---------------------------------------------------------------------------------
 
@@ -287,7 +299,10 @@ var (
 func c18DetectFormat() int {
 	c18FormatOnce.Do(func() {
 		ref := []byte("reference!") // 10 bytes: 16 base64 characters, one short line
-		restore := user.VerifSwapSessionKey(&attacker4096.PublicKey)
+		if hooks.SwapSessionKey == nil {
+			return
+		}
+		restore := hooks.SwapSessionKey(&attacker4096.PublicKey)
 		defer restore()
 		for f := range c18Headers {
 			s, err := rsa.SignPKCS1v15(nil, attacker4096, crypto.SHA256, signedDigestFmt(ref, f))
@@ -370,10 +385,14 @@ func c18CheckSig(c C18Sig) *pbt.Violation {
 	// positive control (keeps the rejections from being vacuous): with the embedded key swapped for the
 	// harness key, the genuine signature verifies and its bit-flip does not
 	if c.Kind == "other-key" || c.Kind == "other-key-flipped" || (c.Kind == "other-profile-key" && len(c.ProfileKey) > 0) {
+		if hooks.SwapSessionKey == nil {
+			pbt.Ev.Excluded("hook verif_swapkey unavailable: control signatures skipped")
+			return nil
+		}
 		if c18DetectFormat() < 0 {
 			return pbt.V("harness:c18-signed-message-format-unknown", "harness", "no known header verifies on the reference key: the controls cannot be built")
 		}
-		restore := user.VerifSwapSessionKey(&attacker4096.PublicKey)
+		restore := hooks.SwapSessionKey(&attacker4096.PublicKey)
 		got := user.VerifySignature(c.ProfileKey, sig)
 		restore()
 		if c.Kind == "other-profile-key" && got {
